@@ -234,6 +234,46 @@ fn key_neighbours(prop: &str, proto: Proto, acc: &mut Acc) {
     }
 }
 
+/// the same number spelled differently in the token's JSON text (tokens made by another implementation):
+/// JSON-equal floats must satisfy the expectation, a different number or the digits as a string must not
+fn number_spellings(prop: &str, proto: Proto, acc: &mut Acc) {
+    let pool = domains::key_pool(proto);
+    let key = &pool[0];
+    let seed = if proto.is_local() { domains::seeds(proto)[2].clone() } else { vec![] };
+    let cases: [(&str, Value, bool); 10] = [
+        ("1.5", json!(1.5), true),
+        ("1.50", json!(1.5), true),
+        ("15e-1", json!(1.5), true),
+        ("0.15E1", json!(1.5), true),
+        ("1.5e0", json!(1.5), true),
+        ("1.51", json!(1.5), false),
+        ("\"1.5\"", json!(1.5), false),
+        ("100", json!(100), true),
+        ("-0.25", json!(-0.25), true),
+        ("-25e-2", json!(-0.25), true),
+    ];
+    for (text, expected, should) in cases {
+        let payload = format!("{{\"n\":{},\"data\":\"x\"}}", text);
+        let Out::Ok(t) = adapter::core_issue(proto, &key.sk, &seed, &payload, None, None) else { continue };
+        for (layer, default) in [(Layer::Generic, false), (Layer::Prelude, false), (Layer::Prelude, true)] {
+            let ops = vec![POp::Check(ClaimSpec { key: "n".into(), value: expected.clone(), form: Form::TupleString }), POp::Parse(0, 0)];
+            let ev = adapter::parse_history(proto, layer, default, &[key.pk.clone()], &[t.clone()], &ops);
+            acc.executions += 1;
+            if let Some(PEvent::Parsed(out, _)) = ev.last() {
+                if out.is_ok() != should {
+                    acc.violate(
+                        format!("{}|{}|{:?}|number-spelling|{}", prop, proto.name(), layer, if should { "json-equal-number-rejected" } else { "different-value-accepted" }),
+                        format!("expected n={} against the payload text {}: {}", expected, payload, out.short()),
+                        json!({"spelling_case": {"proto": proto, "payload": payload, "expected": expected, "should_accept": should}}),
+                    );
+                } else if should {
+                    acc.controls_ok += 1;
+                }
+            }
+        }
+    }
+}
+
 // ------------------------------------------------------------------------------------------------ run
 
 pub fn run(prop: &'static str, tier: &str) -> i32 {
@@ -359,6 +399,7 @@ pub fn run(prop: &'static str, tier: &str) -> i32 {
         let accs = par_units(&Proto::ALL.to_vec(), |p| {
             let mut acc = Acc::default();
             key_neighbours(prop, *p, &mut acc);
+            number_spellings(prop, *p, &mut acc);
             acc
         });
         all.merge(Acc::merge_all(accs));
@@ -399,6 +440,16 @@ pub fn replay(prop: &'static str, case: &Value) -> i32 {
                 0
             }
         };
+    }
+    if case.get("spelling_case").is_some() {
+        let sc = &case["spelling_case"];
+        let Ok(proto) = serde_json::from_value::<Proto>(sc["proto"].clone()) else { crate::report::machinery_error("spelling_case lacks proto") };
+        let mut acc = Acc::default();
+        number_spellings(prop, proto, &mut acc);
+        for v in &acc.violations {
+            println!("VIOLATION property={} replay=(this file)\n  key:  {}\n  what: {}", prop, v.key, v.what);
+        }
+        return if acc.violations.is_empty() { 0 } else { 1 };
     }
     let pc = &case["product_case"];
     let (Ok(proto), Ok(flavor)) = (serde_json::from_value::<Proto>(pc["proto"].clone()), serde_json::from_value::<Flavor>(pc["flavor"].clone())) else {
